@@ -228,7 +228,8 @@ class World:
     def add(self, pid, env):
         self.procs[pid] = {"kind": env["kind"], "status": env.get("status", 0),
                            "exitAt": None if env.get("exitAt") is None else Fr(*env["exitAt"]),
-                           "eintr": list(env.get("eintr", [])), "nwait": 0, "reaped": False}
+                           "eintr": list(env.get("eintr", [])), "eintr_tail": bool(env.get("eintrTail", False)),
+                           "nwait": 0, "reaped": False}
 
     def ended(self, p):
         return p["exitAt"] is not None and p["exitAt"] <= self.now
@@ -254,7 +255,7 @@ class World:
         n = p["nwait"]
         p["nwait"] += 1
         self.last_wait_eintr = False
-        if n < len(p["eintr"]) and p["eintr"][n]:
+        if p["eintr"][n] if n < len(p["eintr"]) else p["eintr_tail"]:
             self.last_wait_eintr = True
             raise InterruptedError(4, "Interrupted system call")
         if p["kind"] != "child" or p["reaped"]:
@@ -604,12 +605,20 @@ def gen_eintr(rng, timeout, start, exit_at):
         k = next((i for i, t in enumerate(POLLS) if t >= timeout), len(POLLS) - 1)
         pat = [False] * k + [True]
         return pat, "at-deadline"
-    return [True] * (FUEL + 50), "always"
+    return "always", "always"
 
 
 def jenv(kind, status, exit_at, eintr):
-    return {"kind": kind, "status": status, "exitAt": None if exit_at is None else jrat(exit_at),
-            "eintr": eintr}
+    """`eintr` = list of booleans (calls beyond the list are not interrupted) or "always" """
+    d = {"kind": kind, "status": status, "exitAt": None if exit_at is None else jrat(exit_at),
+         "eintr": [] if eintr == "always" else eintr}
+    if eintr == "always":
+        d["eintrTail"] = True
+    return d
+
+
+def has_eintr(env):
+    return any(env.get("eintr", [])) or bool(env.get("eintrTail"))
 
 
 def gen_wait_case(rng):
@@ -748,7 +757,7 @@ def strip(case):
 def in_eintr_region(case_env, timeout, obs):
     """known finding region: a timeout was raised right after an interrupted waitpid"""
     return timeout is not None and obs.get("last_eintr") and obs["out"].get("kind") == "timeout" \
-        and any(case_env.get("eintr", []))
+        and has_eintr(case_env)
 
 
 def representable(out):
@@ -866,7 +875,7 @@ def evaluate(ctx, impl, cases, res, source="generated"):
 def judge_single(res, inp, env, timeout, ob, m, sp):
     if sp["model_violations"]:
         # the model itself breaks a clause: only inside the known-finding region
-        if not (sp["model_violations"] == ["timeoutSound"] and any(env.get("eintr", []))):
+        if not (sp["model_violations"] == ["timeoutSound"] and has_eintr(env)):
             res.disagree("model", inp, ob, m, sp, note="the MODEL violates Spec clauses %s" % sp["model_violations"])
             return 1
     if not representable(ob["out"]):
@@ -992,7 +1001,7 @@ def nontrivial(case, ob):
     if case["op"] == "wprocs":
         return ob.get("kind") == "ok" and (len(ob["calls"]) > 1 or bool(ob["sleeps"]))
     obs = [ob] if case["op"] == "wait" else ob
-    return any(o["sleeps"] or o["out"]["kind"] == "timeout" for o in obs) or any(case["env"]["eintr"]) \
+    return any(o["sleeps"] or o["out"]["kind"] == "timeout" for o in obs) or has_eintr(case["env"]) \
         or len(obs) > 1
 
 
@@ -1005,7 +1014,7 @@ def correspond(ctx, res, sweep=True):
                     "with 1-5 processes); non-trivial = the call slept, timed out, was interrupted, was repeated on the "
                     "same object, or (wait_procs) made more than one wait call; distinct = distinct canonical cases; "
                     "plus all 65 536 status words")
-        n = ctx.n(3000, 150000)
+        n = ctx.n(5000, 150000)
         cases = list(CORPUS)
         for i in range(n):
             r = i % 10
@@ -1092,8 +1101,8 @@ def shrink(ctx, d):
         best = dict(case, fam={"timeout": "?", "kind": "?", "status": "?", "place": "?", "eintr": "?", "n": 0})
         cands = []
         if case["op"] in ("wait", "pwait"):
-            if any(case["env"].get("eintr", [])):
-                c = dict(best, env=dict(case["env"], eintr=[]))
+            if has_eintr(case["env"]):
+                c = dict(best, env=dict(case["env"], eintr=[], eintrTail=False))
                 cands.append(c)
             if case["op"] == "pwait" and len(case["calls"]) > 1:
                 for k in range(1, len(case["calls"])):
